@@ -4,6 +4,7 @@
 -/
 import FP.Model.Bool
 import FP.Ref.Bool3
+import FP.Model.Eval
 namespace FP.Props.C06
 open FP FP.Go FP.Model FP.Ref FP.Gen.Bool3
 
@@ -98,5 +99,40 @@ theorem notFn_spec (c : List BItem) :
 example : boolExpr .and [.other] [] = .ok [] := rfl
 example : boolExpr .or [.bool false, .bool true] [.bool true] = .err "not-singleton" := rfl
 example : boolExpr .implies [] [.other] = .ok [true] := rfl
+
+/-! ### the singleton rule in criteria, on whole expressions (the assembled evaluator, FP.Model.Eval) -/
+
+section Expr
+open FP.Model.Eval
+
+/-- a criterion that evaluates to MORE THAN ONE item on some input item is an error in `where`, `exists`,
+    `all` and `iif` alike — never silently its first item -/
+theorem expr_criterion_multi_item_is_error (env : Env) (p t : E) (x : Val) (rest : List Val) (a b : Val) (r : List Val)
+    (hx : eval env p [x] = .ok (a :: b :: r)) :
+    eval env (.fn "where" (.argCons p .argNil)) (x :: rest) = .err "not-singleton" ∧
+    eval env (.fn "exists" (.argCons p .argNil)) (x :: rest) = .err "not-singleton" ∧
+    eval env (.fn "all" (.argCons p .argNil)) (x :: rest) = .err "not-singleton" ∧
+    eval env (.fn "iif" (.argCons p (.argCons t .argNil))) [x] = .err "not-singleton" := by
+  simp [eval, apply1, apply2, whereFn, existsFn, allFn, crit, hx, mapRes, toSingletonBoolean, Model.toBool, Res.bind]
+
+/-- a criterion that evaluates to a single item that is no Boolean counts as true; to nothing, as not true -/
+theorem expr_criterion_single_item (env : Env) (p : E) (x v : Val) (hv : ∀ b, v ≠ .bool b) :
+    (eval env p [x] = .ok [v] →
+      eval env (.fn "where" (.argCons p .argNil)) [x] = .ok [x] ∧ eval env (.fn "all" (.argCons p .argNil)) [x] = .ok [.bool true]) ∧
+    (eval env p [x] = .ok [] →
+      eval env (.fn "where" (.argCons p .argNil)) [x] = .ok [] ∧ eval env (.fn "all" (.argCons p .argNil)) [x] = .ok [.bool false]) := by
+  have hb : toB v = .other := by
+    cases v <;> simp [toB] <;> exact absurd rfl (hv _)
+  refine ⟨fun h => ?_, fun h => ?_⟩
+  · simp [eval, apply1, whereFn, allFn, crit, h, mapRes, hb, toSingletonBoolean, Model.toBool]
+  · simp [eval, apply1, whereFn, allFn, crit, h, mapRes, Model.toBool]
+
+/-- the connectives on whole expressions are the tables applied to the operands' singleton readings -/
+theorem expr_connective (env : Env) (op : BoolOp) (l r : E) (input lv rv : List Val)
+    (hl : eval env l input = .ok lv) (hr : eval env r input = .ok rv) :
+    eval env (.bool op l r) input = mapRes bools (boolExpr op (lv.map toB) (rv.map toB)) := by
+  simp [eval, hl, hr, Res.bind]
+
+end Expr
 
 end FP.Props.C06
